@@ -27,8 +27,12 @@ structure Ctx where
   manifest : Nat
   /-- WAL receiving the writes of the memtable -/
   wal : Nat
-  /-- WAL holding the immutable memtable's writes (still named by the manifest) -/
+  /-- WAL holding the immutable memtable's writes (still replayed by a recovery) -/
   immWal : Option Nat
+  /-- the WAL number the manifest records (`VersionSet`'s log number): recovery replays every WAL
+  with this number or a larger one.  It is at most the number of the oldest WAL in use: a freshly
+  created database whose manifest is re-used keeps the initial number until the first flush. -/
+  manWal : Nat
   deriving Repr
 
 /-- the WAL number the manifest names: the immutable memtable's WAL while there is one -/
@@ -112,7 +116,7 @@ def opsOf (p : PState) : PAction → List Op
     [.appendManifest p.c.manifest { walNumber := none, added := [(lvl + 1, num)], deleted := [(lvl, num)] }]
   | .switchManifest m' =>
     [.createManifest m',
-     .appendManifest m' { walNumber := some p.c.w0, added := levelPairs p.s.levels, deleted := [] },
+     .appendManifest m' { walNumber := some p.c.manWal, added := levelPairs p.s.levels, deleted := [] },
      .setCurrent m',
      .removeManifest p.c.manifest]
   | .reopen t1 t2 w' m' =>
@@ -127,9 +131,9 @@ def opsOf (p : PState) : PAction → List Op
 
 def ctxAfter (c : Ctx) : PAction → Ctx
   | .rotate w => { c with wal := w, immWal := some c.wal }
-  | .flush _ _ => { c with immWal := none }
+  | .flush _ _ => { c with immWal := none, manWal := c.wal }
   | .switchManifest m' => { c with manifest := m' }
-  | .reopen _ _ w' m' => { manifest := m', wal := w', immWal := none }
+  | .reopen _ _ w' m' => { manifest := m', wal := w', immWal := none, manWal := w' }
   | _ => c
 
 /-- the LSM part of a step -/
@@ -175,6 +179,6 @@ def pinit (m w : Nat) : PState :=
   { s := init,
     d := { current := some m, manifests := [(m, [{ walNumber := some w, added := [], deleted := [] }])],
            wals := [(w, [])], tables := [] },
-    c := { manifest := m, wal := w, immWal := none } }
+    c := { manifest := m, wal := w, immWal := none, manWal := w } }
 
 end Rain.Persist
